@@ -651,7 +651,12 @@ func c16TxDialects(c *mon.Ctx, tx *bt.Tx, stage string) {
 			continue
 		}
 		if err != nil {
+			// a transaction the library holds can be written in each of its dialects: an error
+			// here means some script or amount has no JSON form (never seen on the unchanged code)
 			c.Count(key + ":error")
+			c16Viol(c, "C16:marshal-error:"+d, func() string {
+				return fmt.Sprintf("json.Marshal(%s) returned an error at stage %s: %v; tx %x", d, stage, err, tx.Bytes())
+			})
 			continue
 		}
 		var back *bt.Tx
@@ -955,7 +960,17 @@ func c16JudgeList(c *mon.Ctx, in *c16List) {
 		tx.Inputs = append(tx.Inputs, inp)
 		tx.Outputs = append(tx.Outputs, &bt.Output{Satoshis: uint64(1000 + k), LockingScript: bscript.NewFromBytes(gen.P2PKH(r.Bytes(20)))})
 		txs = append(txs, tx)
-		us = append(us, &bt.UTXO{TxID: r.Bytes(32), Vout: uint32(k), Satoshis: uint64(2000 + k), LockingScript: bscript.NewFromBytes(gen.P2PKH(r.Bytes(20)))})
+		u := &bt.UTXO{TxID: r.Bytes(32), Vout: uint32(k), Satoshis: uint64(2000 + k), LockingScript: bscript.NewFromBytes(gen.P2PKH(r.Bytes(20)))}
+		if k%7 == 6 { // a list is a list: the same outpoint again (as merged answers of a node contain it), with the same or another amount
+			u.TxID, u.Vout = append([]byte{}, us[k-1].TxID...), us[k-1].Vout
+			if k%2 == 0 {
+				u.Satoshis, u.LockingScript = us[k-1].Satoshis, bscript.NewFromBytes(append([]byte{}, *us[k-1].LockingScript...))
+			}
+		}
+		us = append(us, u)
+		if k%9 == 8 { // and the same transaction twice in a list of transactions
+			txs[k] = txs[k-1]
+		}
 	}
 	for _, d := range []string{"Txs", "Txs.NodeJSON", "UTXOs", "UTXOs.NodeJSON"} {
 		var src, dst any
